@@ -5,6 +5,7 @@ import (
 	"fmt"
 	"io"
 	"slices"
+	"sync"
 
 	"reduction.dev/reduction/dkv/kv"
 	"reduction.dev/reduction/dkv/sst"
@@ -19,6 +20,13 @@ const checkpointsFileName = "checkpoints"
 type CheckpointList struct {
 	checkpoints               []*Checkpoint
 	checkpointsPendingRemoval []*Checkpoint // Track removed checkpoints so they can be destroyed on Save
+
+	// mu guards the two lists: checkpoints are added and retained on the caller's
+	// goroutine while saves run in the background.
+	mu sync.Mutex
+	// saveMu serializes Save. Every save replaces the same file, so a save that
+	// read an older list must not finish after a save that read a newer one.
+	saveMu sync.Mutex
 }
 
 func NewCheckpointList() *CheckpointList {
@@ -34,6 +42,8 @@ type CheckpointHandle struct {
 // Add creates a new checkpoint, taking ownership of the LevelList reference.
 // Checkpoint is responsible for the LevelList and WAL cleanup when destroyed.
 func (cl *CheckpointList) Add(ckptID uint64, ll *sst.LevelList, w *wal.Writer, lastSeqNum uint64) {
+	cl.mu.Lock()
+	defer cl.mu.Unlock()
 	cp := &Checkpoint{
 		ID:         ckptID,
 		Levels:     ll,
@@ -44,11 +54,17 @@ func (cl *CheckpointList) Add(ckptID uint64, ll *sst.LevelList, w *wal.Writer, l
 }
 
 func (cl *CheckpointList) Save(fs storage.FileSystem) (string, error) {
+	cl.saveMu.Lock()
+	defer cl.saveMu.Unlock()
+
 	// Collect a list of checkpoint docs for serialization
+	cl.mu.Lock()
 	checkpointDocs := make([]checkpointDocument, len(cl.checkpoints))
 	for i, ckpt := range cl.checkpoints {
 		checkpointDocs[i] = ckpt.Document()
 	}
+	pendingRemoval := cl.checkpointsPendingRemoval
+	cl.mu.Unlock()
 	doc := checkpointListDocument{
 		Checkpoints: checkpointDocs,
 	}
@@ -69,29 +85,38 @@ func (cl *CheckpointList) Save(fs storage.FileSystem) (string, error) {
 	}
 
 	// Call cp.Destroy() to delete WAL files
-	for _, cp := range cl.checkpointsPendingRemoval {
+	for _, cp := range pendingRemoval {
 		if err := cp.Destroy(); err != nil {
 			return "", err
 		}
 	}
 
-	// Clear the list of pending checkpoints
-	cl.checkpointsPendingRemoval = nil
+	// Clear the destroyed checkpoints from the pending list (RetainOnly may have
+	// appended more in the meantime)
+	cl.mu.Lock()
+	cl.checkpointsPendingRemoval = cl.checkpointsPendingRemoval[len(pendingRemoval):]
+	cl.mu.Unlock()
 
 	return file.URI(), nil
 }
 
 func (cl *CheckpointList) IsEmpty() bool {
+	cl.mu.Lock()
+	defer cl.mu.Unlock()
 	return len(cl.checkpoints) == 0
 }
 
 func (cl *CheckpointList) Latest() *Checkpoint {
+	cl.mu.Lock()
+	defer cl.mu.Unlock()
 	return cl.checkpoints[len(cl.checkpoints)-1]
 }
 
 // RetainOnly keeps only the checkpoints with the specified IDs in the list. Other checkpoints
 // aren't really removed until the next successful Save.
 func (cl *CheckpointList) RetainOnly(ids []uint64) {
+	cl.mu.Lock()
+	defer cl.mu.Unlock()
 	idsSet := ds.SetOf(ids...)
 	nextCheckpoints := make([]*Checkpoint, 0, len(ids))
 	for _, cp := range cl.checkpoints {
@@ -109,6 +134,8 @@ func (cl *CheckpointList) RetainOnly(ids []uint64) {
 }
 
 func (cl *CheckpointList) IncludesTable(uri string) bool {
+	cl.mu.Lock()
+	defer cl.mu.Unlock()
 	for _, cp := range cl.checkpoints {
 		if cp.IncludesTable(uri) {
 			return true
